@@ -13,7 +13,7 @@ Two monitors on every sequence A1..Ak;B (k <= 4):
     leaks that this particular B does not happen to observe).
 Unlike every other check, nothing is reset between the documents of a
 sequence; the known holders are reset only between sequences."""
-import os, sys, json, subprocess, traceback, re, hashlib
+import os, tempfile, sys, json, subprocess, traceback, re, hashlib
 from .. import common
 from ..gen import docs
 from ..gen.programs import ProgGen
@@ -280,6 +280,14 @@ def cases(seed, tier, shard, nshards):
         n = names[i]
         a = ('\\documentclass{%s}\\begin{document}Wq1x\\end{document}' % n) if n in DOCUMENT_CLASSES else (_D + '\\usepackage{%s}\\begin{document}Wq1x\\end{document}' % n)
         yield {'A': [['package-load:' + n, a]], 'B': ['probe', GENERAL_PROBE], 'render': False, 'renderer': 'HTML5', 'pair': 'load:' + n}
+    # the same \usepackage in a document that has no such package and in one whose own project directory provides it
+    if shard == 0:
+        body = _D + '\\usepackage{zqhousepkg}\\begin{document}Wq1x \\zqhousemacro Wq2x\\end{document}'
+        for k in range(4):
+            a, b = ('package-absent', body), ('probe', PKGDIR_MARK + body)
+            if k % 2:
+                a, b = ('package-in-own-directory', PKGDIR_MARK + body), ('probe', body)
+            yield {'A': [list(a)], 'B': list(b), 'render': k >= 2, 'renderer': 'HTML5', 'pair': 'package-availability'}
     # every command without arguments, used once inside a group by an otherwise empty document (a built-in switch or setting that a
     # command keeps on its class shows in the holders); the quick tier takes every third name, rotating with the seed
     cmds = argumentless_commands()
@@ -353,13 +361,35 @@ def unmix_after_failed_render(renderer):
         pass
 
 
+# A document that begins with this comment line is processed with a project directory of its own in `packages-dirs`, which holds
+# the package zqhousepkg; for any other document that package does not exist (whether a package can be found depends on the
+# document's own configuration, not on what another document could or could not find)
+PKGDIR_MARK = '%pvmon:own-package-directory\n'
+_pkgdir = []
+
+
+def package_dir():
+    if not _pkgdir:
+        d = tempfile.mkdtemp(prefix='c17pkg-', dir=os.environ.get('PVMON_TMP') or None)
+        with open(os.path.join(d, 'zqhousepkg.py'), 'w') as f:
+            f.write('from plasTeX import Command\n\nclass zqhousemacro(Command):\n    def invoke(self, tex):\n        return tex.textTokens("Zhousez")\n')
+        _pkgdir.append(d)
+        import atexit, shutil
+        atexit.register(shutil.rmtree, d, True)
+    return _pkgdir[0]
+
+
 def process(src, render, renderer='HTML5'):
     """-> canonical observable result of one document (tree, and files when rendered)"""
     from plasTeX.TeX import TeX
     table = {}
+    pkgdir = package_dir() if src.startswith(PKGDIR_MARK) else None
+    overrides = {('general', 'packages-dirs'): [pkgdir]} if pkgdir else None
     if not render:
         tex = TeX()
         install_custom(tex, tex.ownerDocument)
+        if pkgdir:
+            tex.ownerDocument.config['general']['packages-dirs'] = [pkgdir]
         tex.input(src)
         try:
             doc = tex.parse()
@@ -370,7 +400,7 @@ def process(src, render, renderer='HTML5'):
             err = type(e).__name__ + ':' + str(e)[:100]
         return {'xml': R.canon_ids(xml, table), 'files': {}, 'error': err}
     try:
-        out = R.render(src, renderer, before_parse=install_custom)
+        out = R.render(src, renderer, overrides=overrides, before_parse=install_custom)
     except Exception as e:
         # the document was not processed to completion (some renderers raise on some documents: Text on narrow table
         # cells, ManPage on verbatim ...): outside the property; take the renderer's mix-ins off Node again, which
